@@ -83,6 +83,11 @@ func walkTree(rootGoitPath string, object *Object) ([]*Node, error) {
 	var nodeName string
 	isFirstLine := true
 
+	if len(object.Data) == 0 {
+		// empty tree: no entries
+		return nodes, nil
+	}
+
 	buf := bytes.NewReader(object.Data)
 	for {
 		var lineSplit []string
@@ -91,7 +96,10 @@ func walkTree(rootGoitPath string, object *Object) ([]*Node, error) {
 			if err != nil {
 				return nil, err
 			}
-			lineSplit = strings.Split(lineString, " ")
+			lineSplit = strings.SplitN(lineString, " ", 2)
+			if len(lineSplit) != 2 {
+				return nil, ErrInvalidTreeObject
+			}
 
 			mode := lineSplit[0]
 			if mode == "040000" {
@@ -121,7 +129,10 @@ func walkTree(rootGoitPath string, object *Object) ([]*Node, error) {
 			hashString := hex.EncodeToString(hashBytes)
 			lineSplit = []string{hashString}
 			if lineString != "" {
-				lineSplit = append(lineSplit, strings.Split(lineString, " ")...)
+				lineSplit = append(lineSplit, strings.SplitN(lineString, " ", 2)...)
+				if len(lineSplit) != 3 {
+					return nil, ErrInvalidTreeObject
+				}
 			}
 
 			hash, err := sha.ReadHash(hashString)
